@@ -125,6 +125,9 @@ static LineNumber write_define_hunk(LineWriter& output, const Hunk& hunk, const 
 
     for (const auto& patch_line : hunk.lines) {
         if (patch_line.operation == ' ') {
+            // NOTE: the file may end before the hunk does if fuzz ignores the lines at the end of the hunk.
+            if (line_number == lines.size())
+                continue;
             const auto& line = lines.at(line_number);
             ++line_number;
             if (define_state != DefineState::Outside) {
@@ -181,6 +184,9 @@ static LineNumber write_hunk(LineWriter& output, const Hunk& hunk, const Locatio
 
     for (const auto& patch_line : hunk.lines) {
         if (patch_line.operation == ' ') {
+            // NOTE: the file may end before the hunk does if fuzz ignores the lines at the end of the hunk.
+            if (line_number == lines.size())
+                continue;
             output << lines.at(line_number);
             ++line_number;
         } else if (patch_line.operation == '+') {
